@@ -101,4 +101,11 @@ MUTANTS = [
     ("euler_dense_slope", SM, "        poly_coeff = hcat([X, k[\"ode\"]])", "        poly_coeff = hcat([X, 0.5*k[\"ode\"]])", ["C08"]),
     ("intg_fine_wrong_coeff_block", ST, "coeff = None if stage._method.poly_coeff is None else stage._method.poly_coeff[k * M + l]", "coeff = None if stage._method.poly_coeff is None else stage._method.poly_coeff[k * M + min(l,1)]", ["C08"]),
     ("sampler_coeff_slice_shift", ST, "        coeff = coeffs[:,(i*s+DM(range(s)).T)]", "        coeff = coeffs[:,(i*s+DM(range(s)).T)] if s!=5 else coeffs[:,(i*s+DM([0,1,2,3,3]).T)]", ["C08"]),
+    # --- C12
+    ("clone_shares_param_vals", ST, "        ret._param_vals = copy(self._param_vals)", "        ret._param_vals = self._param_vals", ["C12"]),
+    ("clone_shares_constraint_lists", ST, "            ret._constraints[k] = list(zip(r, [merge_meta(m, get_meta()) for _, m, _ in v], [d for _, _, d in v]))", "            ret._constraints[k] = self._constraints[k]", ["C12"]),
+    ("clone_ignores_t0_override", ST, "        if \"t0\" not in kwargs:\n            ret._t0 = copy(self._t0)", "        if True:\n            ret._t0 = copy(self._t0)", ["C12"]),
+    ("substage_objective_dropped", SM, "        opti.add_objective(self.eval(stage, stage._objective))", "        opti.add_objective(self.eval(stage, stage._objective) if (stage is stage.master or len(stage.master._stages)<3) else 0)", ["C12"]),
+    ("substage_T_from_master", SM, "        self.T = self.eval(stage, stage._T)\n        self.t0 = self.eval(stage, stage._t0)", "        self.T = self.eval(stage, stage._T)\n        self.t0 = self.eval(stage, stage._t0 if len(stage.master._stages)<2 else stage.master._stages[0]._t0)", ["C12"]),
+    ("clone_initial_guess_lost", ST, "        ret._initial = HashOrderedDict(zip(res[n_constr+1:], self._initial.values()))", "        ret._initial = HashOrderedDict()", ["C12"]),
 ]
